@@ -374,6 +374,9 @@ def cases():
     add("default-def-struct-allprops", "defaults",
         root({"Q": obj({"a": {"type": "integer", "default": 1}, "b": {"type": "array", "items": S}}, default={"a": 2})}),
         note="definition default AND every property has a default: one impl Default only?")
+    add("default-def-struct-invalid", "defaults", root({"Q": obj({"a": I, "b": S}, ["a"], default={"a": "x"})}),
+        note="invalid type-level default on an object definition: refused since a543329")
+    add("default-def-struct-missing-required", "defaults", root({"Q": obj({"a": I, "b": S}, ["a"], default={"b": "y"})}))
     add("default-def-enum", "defaults", root({"Q": {"type": "string", "enum": ["a", "b"], "default": "b"}}))
     add("default-def-newtype", "defaults", root({"Q": {"type": "string", "maxLength": 3, "default": "abc"}}))
     add("default-def-int", "defaults", root({"Q": {"type": "integer", "default": 3}, "P": obj({"q": ref("Q")})}))
